@@ -6,6 +6,10 @@ import linegen, suite_trace
 
 
 def families(tier):
+    return D.api_variants(families0(tier), SEED + 5)
+
+
+def families0(tier):
     if tier == "quick":
         return D.conv_family(SEED + 50, 30, max_named=3, maxlen=3, budget=3000, extras=("dd", "unk", "unkshort")) + \
             D.cmd_family(SEED + 51, 15, maxlen=4, budget=3000, extras=("unk", "dd")) + D.pos_family(SEED + 52, 10, budget=3000)
